@@ -229,15 +229,15 @@ def lensOf (size : Nat) (as : List ARec) : List Nat := as.map (fun a => (a.bytes
 def indexOf (o : Opts) (off size : Nat) (as : List ARec) : Bytes :=
   if o.hasIdx then ((cumulative (lensOf size as)).map (fun e => natToBE off (if o.hasCache then e * 2 else e))).flatten else []
 
-def sizeOf (as : List ARec) : Nat := byteWidth as.length
+def sizeW (as : List ARec) : Nat := byteWidth as.length
 def offOf (o : Opts) (as : List ARec) : Nat :=
-  byteWidth (if o.hasCache then (payloadOf (sizeOf as) as).length * 2 else (payloadOf (sizeOf as) as).length)
+  byteWidth (if o.hasCache then (payloadOf (sizeW as) as).length * 2 else (payloadOf (sizeW as) as).length)
 
 /-- everything before the CRC -/
 def bodyOf (o : Opts) (as : List ARec) : Bytes :=
-  bocMagic ++ (flagByte o (sizeOf as) :: offOf o as :: (natToBE (sizeOf as) as.length ++ (natToBE (sizeOf as) 1 ++
-    (natToBE (sizeOf as) 0 ++ (natToBE (offOf o as) (payloadOf (sizeOf as) as).length ++ (natToBE (sizeOf as) 0 ++
-      (indexOf o (offOf o as) (sizeOf as) as ++ payloadOf (sizeOf as) as)))))))
+  bocMagic ++ (flagByte o (sizeW as) :: offOf o as :: (natToBE (sizeW as) as.length ++ (natToBE (sizeW as) 1 ++
+    (natToBE (sizeW as) 0 ++ (natToBE (offOf o as) (payloadOf (sizeW as) as).length ++ (natToBE (sizeW as) 0 ++
+      (indexOf o (offOf o as) (sizeW as) as ++ payloadOf (sizeW as) as)))))))
 
 theorem toBytesBE_of_lt (w v : Nat) (h : v < 256 ^ w) : toBytesBE? w v = some (natToBE w v) := by
   simp [toBytesBE?, h]
@@ -293,7 +293,7 @@ theorem index_wf (o : Opts) (off size : Nat) (as : List ARec) : Bytes.WF (indexO
 theorem flagByte_lt (o : Opts) (size : Nat) (h : size ≤ 4) : flagByte o size < 256 := by
   unfold flagByte b2n; cases o.hasIdx <;> cases o.hasCrc <;> cases o.hasCache <;> simp <;> omega
 
-theorem body_wf (o : Opts) (as : List ARec) (hsz : sizeOf as ≤ 4) (hoff : offOf o as ≤ 8) (ok : ∀ a ∈ as, a.OK as.length) :
+theorem body_wf (o : Opts) (as : List ARec) (hsz : sizeW as ≤ 4) (hoff : offOf o as ≤ 8) (ok : ∀ a ∈ as, a.OK as.length) :
     Bytes.WF (bodyOf o as) := by
   unfold bodyOf
   refine wf_append (by decide) (wf_cons (flagByte_lt o _ hsz) (wf_cons (by omega) ?_))
@@ -301,26 +301,26 @@ theorem body_wf (o : Opts) (as : List ARec) (hsz : sizeOf as ≤ 4) (hoff : offO
     (wf_append (natToBE_wf _ _) (wf_append (natToBE_wf _ _) (wf_append (index_wf _ _ _ _) (payload_wf _ _ _ ok))))))
 
 theorem emit_eq (o : Opts) (as : List ARec) (hv : o.valid = true) (h1 : 1 ≤ as.length) (hn : as.length < 2 ^ 32)
-    (hP : (payloadOf (sizeOf as) as).length * 2 < 2 ^ 64) (ok : ∀ a ∈ as, a.OK as.length) :
+    (hP : (payloadOf (sizeW as) as).length * 2 < 2 ^ 64) (ok : ∀ a ∈ as, a.OK as.length) :
     emit (as.map ARec.toRec) o = some (bodyOf o as ++ (if o.hasCrc then crc32cLE (bodyOf o as) else [])) := by
-  have hsz1 : 1 ≤ sizeOf as := byteWidth_pos _ h1
-  have hsz4 : sizeOf as ≤ 4 := byteWidth_le _ 4 (by simpa using hn)
-  have hnlt : as.length < 256 ^ sizeOf as := lt_pow_byteWidth _
+  have hsz1 : 1 ≤ sizeW as := byteWidth_pos _ h1
+  have hsz4 : sizeW as ≤ 4 := byteWidth_le _ 4 (by simpa using hn)
+  have hnlt : as.length < 256 ^ sizeW as := lt_pow_byteWidth _
   have hf : o.flags = 0 := by
     simp [Opts.valid] at hv; exact hv.2
-  have hsers := mapM_ser (sizeOf as) as.length (Nat.le_of_lt hnlt) as ok
-  have hflag : toBytesBE? 1 ((b2n o.hasIdx * 128 + b2n o.hasCrc * 64 + b2n o.hasCache * 32 + o.flags * 8 + sizeOf as) ||| sizeOf as)
-      = some [flagByte o (sizeOf as)] := by
+  have hsers := mapM_ser (sizeW as) as.length (Nat.le_of_lt hnlt) as ok
+  have hflag : toBytesBE? 1 ((b2n o.hasIdx * 128 + b2n o.hasCrc * 64 + b2n o.hasCache * 32 + o.flags * 8 + sizeW as) ||| sizeW as)
+      = some [flagByte o (sizeW as)] := by
     rw [flags_or o _ hsz1 hsz4 hf]
-    have : flagByte o (sizeOf as) < 256 := by
+    have : flagByte o (sizeW as) < 256 := by
       unfold flagByte b2n; cases o.hasIdx <;> cases o.hasCrc <;> cases o.hasCache <;> simp <;> omega
     simp [toBytesBE?, this, natToBE]
-  have hPlen : (List.map (ARec.bytes (sizeOf as)) as).flatten.length = (payloadOf (sizeOf as) as).length := rfl
+  have hPlen : (List.map (ARec.bytes (sizeW as)) as).flatten.length = (payloadOf (sizeW as) as).length := rfl
   have hoff8 : offOf o as ≤ 8 := by
     unfold offOf
     apply byteWidth_le
     split <;> omega
-  have hPlt : (payloadOf (sizeOf as) as).length < 256 ^ offOf o as := by
+  have hPlt : (payloadOf (sizeW as) as).length < 256 ^ offOf o as := by
     unfold offOf
     split
     · exact Nat.lt_of_le_of_lt (by omega) (lt_pow_byteWidth _)
@@ -329,8 +329,8 @@ theorem emit_eq (o : Opts) (as : List ARec) (hv : o.valid = true) (h1 : 1 ≤ as
     simp [toBytesBE?, natToBE]; omega
   have hidx : (if o.hasIdx = true then
       Option.map List.flatten (List.mapM (fun e => toBytesBE? (offOf o as) (if o.hasCache = true then e * 2 else e))
-        (cumulative (List.map List.length (List.map (ARec.bytes (sizeOf as)) as))))
-      else some []) = some (indexOf o (offOf o as) (sizeOf as) as) := by
+        (cumulative (List.map List.length (List.map (ARec.bytes (sizeW as)) as))))
+      else some []) = some (indexOf o (offOf o as) (sizeW as) as) := by
     unfold indexOf lensOf
     by_cases hi : o.hasIdx = true
     · simp only [hi, if_true]
@@ -338,7 +338,7 @@ theorem emit_eq (o : Opts) (as : List ARec) (hv : o.valid = true) (h1 : 1 ≤ as
       · simp [List.map_map, Function.comp_def]
       · intro v hv
         have hle := cumulativeFrom_le _ 0 v hv
-        have hsum : (List.map List.length (List.map (ARec.bytes (sizeOf as)) as)).sum = (payloadOf (sizeOf as) as).length := by
+        have hsum : (List.map List.length (List.map (ARec.bytes (sizeW as)) as)).sum = (payloadOf (sizeW as) as).length := by
           unfold payloadOf; simp [List.length_flatten]
         rw [hsum] at hle
         unfold offOf
@@ -346,16 +346,16 @@ theorem emit_eq (o : Opts) (as : List ARec) (hv : o.valid = true) (h1 : 1 ≤ as
         · exact Nat.lt_of_le_of_lt (by omega) (lt_pow_byteWidth _)
         · exact Nat.lt_of_le_of_lt (by omega) (lt_pow_byteWidth _)
     · simp [hi]
-  have hone : (1 : Nat) < 256 ^ sizeOf as := Nat.one_lt_pow (by omega) (by decide)
+  have hone : (1 : Nat) < 256 ^ sizeW as := Nat.one_lt_pow (by omega) (by decide)
   unfold emit
   simp only [List.length_map]
-  rw [show byteWidth as.length = sizeOf as from rfl]
+  rw [show byteWidth as.length = sizeW as from rfl]
   simp only [hflag, hsers, Option.bind_eq_bind, Option.bind_some, hPlen]
-  rw [show byteWidth (if o.hasCache = true then (payloadOf (sizeOf as) as).length * 2 else (payloadOf (sizeOf as) as).length) = offOf o as from rfl]
+  rw [show byteWidth (if o.hasCache = true then (payloadOf (sizeW as) as).length * 2 else (payloadOf (sizeW as) as).length) = offOf o as from rfl]
   simp only [hoffB, Option.bind_some, toBytesBE_of_lt _ _ hnlt, toBytesBE_of_lt _ _ hone, toBytesBE_of_lt _ _ hPlt, hidx]
-  have hbody : bocMagic ++ [flagByte o (sizeOf as)] ++ [offOf o as] ++ natToBE (sizeOf as) as.length ++ natToBE (sizeOf as) 1 ++
-      List.replicate (sizeOf as) 0 ++ natToBE (offOf o as) (List.length (payloadOf (sizeOf as) as)) ++
-      List.replicate (sizeOf as) 0 ++ indexOf o (offOf o as) (sizeOf as) as ++ (List.map (ARec.bytes (sizeOf as)) as).flatten
+  have hbody : bocMagic ++ [flagByte o (sizeW as)] ++ [offOf o as] ++ natToBE (sizeW as) as.length ++ natToBE (sizeW as) 1 ++
+      List.replicate (sizeW as) 0 ++ natToBE (offOf o as) (List.length (payloadOf (sizeW as) as)) ++
+      List.replicate (sizeW as) 0 ++ indexOf o (offOf o as) (sizeW as) as ++ (List.map (ARec.bytes (sizeW as)) as).flatten
       = bodyOf o as := by
     unfold bodyOf
     rw [natToBE_zero]
@@ -377,17 +377,17 @@ theorem flag_decode (o : Opts) (size : Nat) (h4 : size ≤ 4) :
 
 /-- the header the strict reader must see -/
 def headerOf (o : Opts) (as : List ARec) : Header :=
-  ⟨o.hasIdx, o.hasCrc, o.hasCache, sizeOf as, offOf o as, as.length, (payloadOf (sizeOf as) as).length, [0]⟩
+  ⟨o.hasIdx, o.hasCrc, o.hasCache, sizeW as, offOf o as, as.length, (payloadOf (sizeW as) as).length, [0]⟩
 
 theorem readHeader_body (o : Opts) (as : List ARec) (hv : o.valid = true) (h1 : 1 ≤ as.length) (hn : as.length < 2 ^ 32)
-    (hP : (payloadOf (sizeOf as) as).length * 2 < 2 ^ 64) (tail : Bytes) :
+    (hP : (payloadOf (sizeW as) as).length * 2 < 2 ^ 64) (tail : Bytes) :
     readHeader (bodyOf o as ++ tail) =
-      some (headerOf o as, indexOf o (offOf o as) (sizeOf as) as ++ (payloadOf (sizeOf as) as ++ tail)) := by
-  have hsz1 : 1 ≤ sizeOf as := byteWidth_pos _ h1
-  have hsz4 : sizeOf as ≤ 4 := byteWidth_le _ 4 (by simpa using hn)
-  have hnlt : as.length < 256 ^ sizeOf as := lt_pow_byteWidth _
-  have hone : (1 : Nat) < 256 ^ sizeOf as := Nat.one_lt_pow (by omega) (by decide)
-  have hzero : (0 : Nat) < 256 ^ sizeOf as := by omega
+      some (headerOf o as, indexOf o (offOf o as) (sizeW as) as ++ (payloadOf (sizeW as) as ++ tail)) := by
+  have hsz1 : 1 ≤ sizeW as := byteWidth_pos _ h1
+  have hsz4 : sizeW as ≤ 4 := byteWidth_le _ 4 (by simpa using hn)
+  have hnlt : as.length < 256 ^ sizeW as := lt_pow_byteWidth _
+  have hone : (1 : Nat) < 256 ^ sizeW as := Nat.one_lt_pow (by omega) (by decide)
+  have hzero : (0 : Nat) < 256 ^ sizeW as := by omega
   have hoff8 : offOf o as ≤ 8 := by
     unfold offOf
     apply byteWidth_le
@@ -395,16 +395,16 @@ theorem readHeader_body (o : Opts) (as : List ARec) (hv : o.valid = true) (h1 : 
   have hoff1 : 1 ≤ offOf o as := by
     unfold offOf
     apply byteWidth_pos
-    have : 2 ≤ (payloadOf (sizeOf as) as).length := by
+    have : 2 ≤ (payloadOf (sizeW as) as).length := by
       match as, h1 with
       | a :: rest, _ => simp [payloadOf, ARec.bytes]
     split <;> omega
-  have hPlt : (payloadOf (sizeOf as) as).length < 256 ^ offOf o as := by
+  have hPlt : (payloadOf (sizeW as) as).length < 256 ^ offOf o as := by
     unfold offOf
     split
     · exact Nat.lt_of_le_of_lt (by omega) (lt_pow_byteWidth _)
     · exact lt_pow_byteWidth _
-  obtain ⟨f1, f2, f3, f4, f5⟩ := flag_decode o (sizeOf as) hsz4
+  obtain ⟨f1, f2, f3, f4, f5⟩ := flag_decode o (sizeW as) hsz4
   have hci : (o.hasCache && !o.hasIdx) = false := by
     simp [Opts.valid] at hv
     cases hc : o.hasCache <;> cases hi : o.hasIdx <;> simp_all
@@ -412,12 +412,12 @@ theorem readHeader_body (o : Opts) (as : List ARec) (hv : o.valid = true) (h1 : 
   simp only [List.append_assoc, takeN_append bocMagic _ 4 rfl, Option.bind_eq_bind, Option.bind_some, List.cons_append,
     uintBE_one, f1, f2, f3, f4, f5, uintBE_natToBE _ _ _ hnlt, uintBE_natToBE _ _ _ hone, uintBE_natToBE _ _ _ hzero,
     uintBE_natToBE _ _ _ hPlt, hci]
-  have hroots : uintsBE 1 (sizeOf as) (natToBE (sizeOf as) 0 ++
-      (indexOf o (offOf o as) (sizeOf as) as ++ (payloadOf (sizeOf as) as ++ tail))) =
-      some ([0], indexOf o (offOf o as) (sizeOf as) as ++ (payloadOf (sizeOf as) as ++ tail)) := by
+  have hroots : uintsBE 1 (sizeW as) (natToBE (sizeW as) 0 ++
+      (indexOf o (offOf o as) (sizeW as) as ++ (payloadOf (sizeW as) as ++ tail))) =
+      some ([0], indexOf o (offOf o as) (sizeW as) as ++ (payloadOf (sizeW as) as ++ tail)) := by
     simp [uintsBE, uintBE_natToBE _ _ _ hzero]
   have hm : (bocMagic != [181, 238, 156, 114]) = false := by decide
-  have hs : (decide (sizeOf as < 1) || decide (sizeOf as > 4)) = false := by simp; omega
+  have hs : (decide (sizeW as < 1) || decide (sizeW as > 4)) = false := by simp; omega
   have ho : (decide (offOf o as < 1) || decide (offOf o as > 8)) = false := by simp; omega
   have hr : (decide (1 < 1) || (0 != 0) || decide (1 > as.length)) = false := by
     have : ¬ (1 > as.length) := by omega
@@ -450,10 +450,10 @@ theorem refsForward_of (as : List ARec) (ok : ∀ a ∈ as, a.OK as.length) (fw 
   simp [h1, h2]
 
 theorem index_entry_lt (o : Opts) (as : List ARec) :
-    ∀ v ∈ cumulative (lensOf (sizeOf as) as), (if o.hasCache = true then v * 2 else v) < 256 ^ offOf o as := by
+    ∀ v ∈ cumulative (lensOf (sizeW as) as), (if o.hasCache = true then v * 2 else v) < 256 ^ offOf o as := by
   intro v hv
   have hle := cumulativeFrom_le _ 0 v hv
-  have hsum : (lensOf (sizeOf as) as).sum = (payloadOf (sizeOf as) as).length := by
+  have hsum : (lensOf (sizeW as) as).sum = (payloadOf (sizeW as) as).length := by
     unfold payloadOf lensOf; simp [List.length_flatten, List.map_map, Function.comp_def]
   rw [hsum] at hle
   unfold offOf
@@ -482,36 +482,36 @@ theorem unscale (c : Bool) (xs : List Nat) :
 
 theorem readBody_emit (o : Opts) (as : List ARec) (ok : ∀ a ∈ as, a.OK as.length) (fw : Forward as) :
     readBody (headerOf o as) (bodyOf o as ++ tailOf o as)
-      (indexOf o (offOf o as) (sizeOf as) as ++ (payloadOf (sizeOf as) as ++ tailOf o as)) =
+      (indexOf o (offOf o as) (sizeW as) as ++ (payloadOf (sizeW as) as ++ tailOf o as)) =
       some ⟨as.map ARec.toSRec, [0]⟩ := by
-  have hnlt : as.length ≤ 256 ^ sizeOf as := Nat.le_of_lt (lt_pow_byteWidth _)
-  have hcells := readCells_payload (sizeOf as) as.length hnlt as ok
+  have hnlt : as.length ≤ 256 ^ sizeW as := Nat.le_of_lt (lt_pow_byteWidth _)
+  have hcells := readCells_payload (sizeW as) as.length hnlt as ok
   have hidx : uintsBE as.length (offOf o as)
-        (((cumulative (lensOf (sizeOf as) as)).map (fun e => natToBE (offOf o as) (if o.hasCache = true then e * 2 else e))).flatten
-          ++ (payloadOf (sizeOf as) as ++ tailOf o as)) =
-      some ((cumulative (lensOf (sizeOf as) as)).map (fun e => if o.hasCache = true then e * 2 else e),
-        payloadOf (sizeOf as) as ++ tailOf o as) := by
-    have := uintsBE_flatten (offOf o as) ((cumulative (lensOf (sizeOf as) as)).map (fun e => if o.hasCache = true then e * 2 else e))
-      (payloadOf (sizeOf as) as ++ tailOf o as) (by
+        (((cumulative (lensOf (sizeW as) as)).map (fun e => natToBE (offOf o as) (if o.hasCache = true then e * 2 else e))).flatten
+          ++ (payloadOf (sizeW as) as ++ tailOf o as)) =
+      some ((cumulative (lensOf (sizeW as) as)).map (fun e => if o.hasCache = true then e * 2 else e),
+        payloadOf (sizeW as) as ++ tailOf o as) := by
+    have := uintsBE_flatten (offOf o as) ((cumulative (lensOf (sizeW as) as)).map (fun e => if o.hasCache = true then e * 2 else e))
+      (payloadOf (sizeW as) as ++ tailOf o as) (by
         intro v hv
         obtain ⟨e, he, rfl⟩ := List.mem_map.1 hv
         exact index_entry_lt o as e he)
     simp only [List.length_map, cumulative, cumulativeFrom_length, lensOf, List.map_map] at this
     simpa [cumulative, lensOf, Function.comp_def] using this
-  have hfst : List.map ((fun x => x.fst) ∘ fun a => (ARec.toSRec a, List.length (ARec.bytes (sizeOf as) a))) as = as.map ARec.toSRec := by
+  have hfst : List.map ((fun x => x.fst) ∘ fun a => (ARec.toSRec a, List.length (ARec.bytes (sizeW as) a))) as = as.map ARec.toSRec := by
     simp [Function.comp_def]
-  have hsnd : List.map ((fun x => x.snd) ∘ fun a => (ARec.toSRec a, List.length (ARec.bytes (sizeOf as) a))) as = lensOf (sizeOf as) as := by
+  have hsnd : List.map ((fun x => x.snd) ∘ fun a => (ARec.toSRec a, List.length (ARec.bytes (sizeW as) a))) as = lensOf (sizeW as) as := by
     simp [Function.comp_def, lensOf]
-  have hend : endOffsets (lensOf (sizeOf as) as) = cumulative (lensOf (sizeOf as) as) := endOffsetsFrom_eq _ 0
+  have hend : endOffsets (lensOf (sizeW as) as) = cumulative (lensOf (sizeW as) as) := endOffsetsFrom_eq _ 0
   have hfw := refsForward_of as ok fw
   unfold readBody indexOf
   by_cases hi : o.hasIdx = true
   · simp only [headerOf, hi, if_true, Option.bind_eq_bind, hidx, Option.bind_some, takeN_append _ _ _ rfl]
-    rw [show readCells as.length (sizeOf as) (payloadOf (sizeOf as) as) = _ from hcells]
+    rw [show readCells as.length (sizeW as) (payloadOf (sizeW as) as) = _ from hcells]
     simp only [Option.bind_some, List.map_map, unscale, tail_ok, hfst, hsnd, hend, hfw]
     simp
   · simp only [headerOf, hi, Option.bind_eq_bind, Option.bind_some, takeN_append _ _ _ rfl, List.nil_append, Bool.false_eq_true, ↓reduceIte]
-    rw [show readCells as.length (sizeOf as) (payloadOf (sizeOf as) as) = _ from hcells]
+    rw [show readCells as.length (sizeW as) (payloadOf (sizeW as) as) = _ from hcells]
     simp only [Option.bind_some, List.map_map, tail_ok, hfst, hfw]
     simp
 
@@ -519,7 +519,7 @@ theorem readBody_emit (o : Opts) (as : List ARec) (ok : ∀ a ∈ as, a.OK as.le
 /-- MAIN BYTE-LEVEL THEOREM: for every list of well-formed records with strictly forward references and every valid
 option set, `emit` succeeds and the byte-level strict reader recovers exactly the records and the root list `[0]`. -/
 theorem strictFlat_emit (o : Opts) (as : List ARec) (hv : o.valid = true) (h1 : 1 ≤ as.length) (hn : as.length < 2 ^ 32)
-    (hP : (payloadOf (sizeOf as) as).length * 2 < 2 ^ 64) (ok : ∀ a ∈ as, a.OK as.length) (fw : Forward as) :
+    (hP : (payloadOf (sizeW as) as).length * 2 < 2 ^ 64) (ok : ∀ a ∈ as, a.OK as.length) (fw : Forward as) :
     ∃ bs, emit (as.map ARec.toRec) o = some bs ∧ bs = bodyOf o as ++ tailOf o as ∧
       strictFlat bs = some ⟨as.map ARec.toSRec, [0]⟩ := by
   refine ⟨_, emit_eq o as hv h1 hn hP ok, rfl, ?_⟩
@@ -527,5 +527,51 @@ theorem strictFlat_emit (o : Opts) (as : List ARec) (hv : o.valid = true) (h1 : 
   rw [show (if o.hasCrc = true then crc32cLE (bodyOf o as) else []) = tailOf o as from rfl]
   simp only [readHeader_body o as hv h1 hn hP, Option.bind_eq_bind, Option.bind_some]
   exact readBody_emit o as ok fw
+
+theorem cumulativeFrom_last : ∀ (lens : List Nat) (acc : Nat), lens ≠ [] →
+    (cumulativeFrom acc lens).getLast? = some (acc + lens.sum)
+  | [], _, h => absurd rfl h
+  | [l], acc, _ => by simp [cumulativeFrom]
+  | l :: l' :: ls, acc, _ => by
+    have := cumulativeFrom_last (l' :: ls) (acc + l) (by simp)
+    rw [cumulativeFrom]
+    rw [show cumulativeFrom (acc + l) (l' :: ls) = (acc + l + l') :: cumulativeFrom (acc + l + l') ls from rfl] at this ⊢
+    rw [List.getLast?_cons_cons, this]
+    simp [Nat.add_assoc]
+
+theorem crc32cLE_wf (b : Bytes) : Bytes.WF (crc32cLE b) := by
+  intro x hx
+  simp only [crc32cLE, List.mem_map] at hx
+  obtain ⟨v, _, rfl⟩ := hx
+  exact v.isLt
+
+/-- everything after the 4 magic bytes of an emitted serialisation is a well-formed byte string -/
+theorem emitted_wf (o : Opts) (as : List ARec) (_h1 : 1 ≤ as.length) (hn : as.length < 2 ^ 32)
+    (hP : (payloadOf (sizeW as) as).length * 2 < 2 ^ 64) (ok : ∀ a ∈ as, a.OK as.length) :
+    Bytes.WF ((flagByte o (sizeW as) :: offOf o as :: (natToBE (sizeW as) as.length ++ (natToBE (sizeW as) 1 ++
+      (natToBE (sizeW as) 0 ++ (natToBE (offOf o as) (payloadOf (sizeW as) as).length ++ (natToBE (sizeW as) 0 ++
+        (indexOf o (offOf o as) (sizeW as) as ++ payloadOf (sizeW as) as))))))) ++
+      (if o.hasCrc then crc32cLE (bodyOf o as) else [])) := by
+  have hsz4 : sizeW as ≤ 4 := byteWidth_le _ 4 (by simpa using hn)
+  have hoff8 : offOf o as ≤ 8 := by
+    unfold offOf
+    apply byteWidth_le
+    split <;> omega
+  have hb := body_wf o as hsz4 hoff8 ok
+  refine wf_append ?_ ?_
+  · intro x hx
+    exact hb x (by unfold bodyOf; exact List.mem_append_right _ hx)
+  · split
+    · exact crc32cLE_wf _
+    · intro x hx; simp at hx
+
+/-- the last index entry is the total cell-data size -/
+theorem cumulative_last (size : Nat) (as : List ARec) (h1 : 1 ≤ as.length) :
+    (cumulative (lensOf size as)).getLast? = some (payloadOf size as).length := by
+  have hne : lensOf size as ≠ [] := by
+    match as, h1 with
+    | a :: rest, _ => simp [lensOf]
+  rw [cumulative, cumulativeFrom_last _ 0 hne]
+  simp [payloadOf, lensOf, List.length_flatten, List.map_map, Function.comp_def]
 
 end TonVerif.Proofs.BocEmit
